@@ -358,3 +358,6 @@ func X5Chain(chain [][]byte) []byte {
 	}
 	return Array(items...)
 }
+
+// DecodeAny decodes a CBOR item into a generic Go value (integers as int64).
+func DecodeAny(raw []byte, v *any) error { return decAny.Unmarshal(raw, v) }
